@@ -19,7 +19,7 @@ MkProg(ast, ng, F, lit) ==
   [ast |-> ast, ng |-> ng, F |-> F, lit |-> lit,
    par |-> ParentFn(ast, ng),
    nullable |-> Nullable(ast, ng, F),
-   strict |-> Strict(ast), bref |-> HasBref(ast)]
+   strict |-> Strict(ast), bref |-> HasBref(ast), iterambig |-> IterAmbig(ast)]
 
 (* Compile(pat, flags, X) -> [k |-> "ok", prog] | [k |-> "err", e |-> set of acceptable error kinds] | [k |-> "uns"] *)
 Compile(pat, flags, X) ==
@@ -61,10 +61,11 @@ CaseUnspec(prog, s) ==
                \/ \E pr \in PatChars(prog.ast) : \E e \in Exotic : InR(e, pr[1], pr[2]))
 GcUnspec(prog, s) == UsesGc(prog.ast) /\ \E k \in 1..Len(s) : ~GcKnown(s[k])
 (* is_match / nullability are undefined only for non-strict patterns with back-references *)
-LangUnspec(prog) == prog.bref /\ ~prog.strict
+LangUnspec(prog) == prog.bref /\ (~prog.strict \/ prog.iterambig)
 InputUnspec(prog, s) == CaseUnspec(prog, s) \/ GcUnspec(prog, s) \/ LangUnspec(prog)
 (* spans, captures and everything derived from them are definite only for strict patterns *)
 SpanUnspec(prog, s) == InputUnspec(prog, s) \/ ~prog.strict
+CapUnspec(prog, s) == SpanUnspec(prog, s) \/ prog.iterambig
 
 (* ---- is_match -------------------------------------------------------------------- *)
 OpIsMatch(prog, s) == [k |-> "ok", v |-> IsMatch(prog.ast, prog.ng, s, prog.F)]
